@@ -104,6 +104,16 @@ def tlc_cases(chk, tier):
     if not r2.ok:
         raise SpecViolation("MC_FmtDeriv", r2)
     out += r2.cases
+    # the unbounded part: the implicit counter as a machine consuming one placeholder per step (FmtCounter.tla; the two TLC
+    # runs above have folded the same step operator over every bounded literal: P_C03_Machine)
+    proofs = [vlib.run_apalache("FmtCounter", ["--init=Init", "--inv=IndInv", "--length=0"]),
+              vlib.run_apalache("FmtCounter", ["--init=IndInv", "--inv=IndInv", "--length=1"]),
+              vlib.run_apalache("FmtCounter", ["--init=IndInv", "--next=NextBroken", "--inv=IndInv", "--length=1"], expect_error=True),
+              vlib.run_tlapm("FmtCounter_proofs")]
+    chk.notes["unbounded"] = proofs
+    for p in proofs:
+        if not p["ok"]:
+            raise vlib.ToolError(f"FmtCounter: {p}")
     return out
 
 
